@@ -52,9 +52,21 @@ where
         })
         .collect();
     let mut it = hs.into_iter();
-    let mut out = it.next().unwrap().join().expect("shard thread panicked");
-    for h in it {
-        out.merge(h.join().expect("shard thread panicked"));
+    // a shard thread that died is a broken check (inconclusive), never a crash
+    let mut out: Option<Out> = None;
+    let mut dead = 0;
+    for h in it.by_ref() {
+        match h.join() {
+            Ok(o) => match out.as_mut() {
+                Some(acc) => acc.merge(o),
+                None => out = Some(o),
+            },
+            Err(_) => dead += 1,
+        }
+    }
+    let mut out = out.unwrap_or_else(|| Out::new(Report::new("", "", "")));
+    for _ in 0..dead {
+        out.rep.inconclusive("shard-thread-panicked");
     }
     out
 }
